@@ -302,9 +302,21 @@ fn impl_encode(data: &Data, type_name: &Ident, crate_path: &syn::Path) -> TokenS
 				Err(e) => return e.to_compile_error(),
 			};
 
-			// If the enum has no variants, we don't need to encode anything.
+			// If the enum has no (non-skipped) variants, there is nothing to encode. The methods
+			// still have to be emitted: `Encode`'s default methods are defined in terms of each
+			// other, so an empty impl recurses forever when a skipped variant is encoded.
 			if variants.is_empty() {
-				return quote!();
+				return quote! {
+					fn size_hint(&#self_) -> usize {
+						0_usize
+					}
+
+					fn encode_to<__CodecOutputEdqy: #crate_path::Output + ?::core::marker::Sized>(
+						&#self_,
+						_: &mut __CodecOutputEdqy
+					) {
+					}
+				};
 			}
 
 			let recurse = variants.iter().enumerate().map(|(i, f)| {
